@@ -4,6 +4,7 @@ import (
 	"fmt"
 	"math/rand"
 	"os"
+	"sort"
 	"testing"
 
 	"pgregory.net/rapid"
@@ -47,12 +48,50 @@ func genC12() *rapid.Generator[Case] {
 		}
 		kvKeys := []string{"a", "ab", "\x00"}
 		sKeys := []string{"a", "c"}
+		// prefer the keys the history itself uses, so that the bad transaction pops, removes and overwrites what exists
+		hu := UniverseOf(c)
+		seenK := map[string]bool{}
+		var histS, histKV []string
+		for _, m := range []map[string][]string{hu.LK, hu.SK} {
+			for b, ks := range m {
+				if b == "never" {
+					continue
+				}
+				for _, k := range ks {
+					if !seenK["s"+k] && k != "" {
+						seenK["s"+k] = true
+						histS = append(histS, k)
+					}
+				}
+			}
+		}
+		for b, ks := range hu.KVK {
+			if b == "never" {
+				continue
+			}
+			for _, k := range ks {
+				if !seenK["k"+k] && k != "" {
+					seenK["k"+k] = true
+					histKV = append(histKV, k)
+				}
+			}
+		}
+		sort.Strings(histS)
+		sort.Strings(histKV)
+		if len(histS) > 0 && rapid.IntRange(0, 3).Draw(t, "histskeys") != 0 {
+			sKeys = histS
+		}
+		if len(histKV) > 0 && rapid.IntRange(0, 3).Draw(t, "histkvkeys") != 0 {
+			kvKeys = histKV
+		}
 		gop := genMixedOp(structs, buckets, kvKeys, sKeys, false)
 		bad := Step{K: "bad", End: kind, Managed: rapid.Bool().Draw(t, "bmanaged")}
 		nops := rapid.IntRange(1, 4).Draw(t, "bnops")
 		for len(bad.Ops) < nops {
 			op := gop(t)
-			if op.K == "spop" || !isWrite(op.K) {
+			// SPop may pop any member: it is fine in a transaction that must have no effect, but not where the
+			// outcome is in doubt (sync fault) and a twin that committed the same calls is the reference
+			if (op.K == "spop" && kind == "sfault") || !isWrite(op.K) {
 				op = Op{K: "put", B: S(buckets[0]), Key: S(rapid.SampledFrom(kvKeys).Draw(t, "bk")), V: S(genValue().Draw(t, "bv"))}
 			}
 			bad.Ops = append(bad.Ops, op)
